@@ -395,6 +395,10 @@ pub fn run_case(
     let mut last: Vec<Vec<u8>> = Vec::new();
     let mut open = true;
     while let Some(ev) = events(&last, open) {
+        if d.stuck > 0 {
+            // the server did not react within the deadline: nothing after it is meaningful
+            break;
+        }
         last = Vec::new();
         open = true;
         match ev {
